@@ -67,6 +67,11 @@ def fixed_cases():
         ("early_exit_big", "gen 5000000 | { head -c 3; }; echo; echo \"ps=${PIPESTATUS[*]}\""),
         ("loop_reader_big", "gen 80000 | while read l; do :; done; echo \"st=$? ps=${PIPESTATUS[*]}\""),
         ("two_loops", "gen 70000 | while IFS= read -r l; do echo \"$l\"; done | while IFS= read -r l; do echo \"$l\"; done | cksum"),
+        # PIPESTATUS after compound commands: grouping / flow commands keep what the last pipeline inside them recorded
+        ("ps_after_group", "{ false | true; }; echo \"A ${PIPESTATUS[*]}\"; false | true; { :; }; echo \"B ${PIPESTATUS[*]}\""),
+        ("ps_after_flow", "true | false; for i in; do :; done; echo \"F ${PIPESTATUS[*]}\"; false | true; if false; then :; fi; echo \"G ${PIPESTATUS[*]}\"; true | false | true; case x in y) :;; esac; echo \"H ${PIPESTATUS[*]}\"; false | true; while false; do :; done; echo \"I ${PIPESTATUS[*]}\""),
+        ("ps_after_others", "false | true; { :; } | cat; echo \"J ${PIPESTATUS[*]}\"; false | true; ( exit 3 ); echo \"K ${PIPESTATUS[*]}\"; false | true; (( 0 )); echo \"L ${PIPESTATUS[*]}\"; false | true; [[ a == b ]]; echo \"M ${PIPESTATUS[*]}\"; ! { true | false; }; echo \"N ${PIPESTATUS[*]} $?\""),
+        ("ps_after_function", "f() { false | true; }; f; echo \"E ${PIPESTATUS[*]}\"; true | false | true; x=1; echo \"D ${PIPESTATUS[*]}\""),
     ]
 
 
